@@ -291,6 +291,9 @@ def run_special(cfg, seed, scenario):
     'handler-raises:<when>' — the server application's handler ends with an exception (when = eof: a plain `while True: recv()`
         loop lets end-of-stream escape when the client disconnects | reject: it raises on the first request), then the same
         address connects again.
+    'incompatible:<kind>' — a peer that answers SYN and CONNECT correctly at packet level but with whom no connection can be
+        established: kind = creds-vs-keyless (the client presents a ticket to a port served without a key: the connection response
+        is empty) | keyless-vs-keyed (a client without credentials at a keyed port); then a compatible client from the same address.
     Same result shape as run()."""
     rng = random.Random(seed)
     out = ps.Session()
@@ -307,6 +310,14 @@ def run_special(cfg, seed, scenario):
         if cfg.credentials:
             good, session_key = ps.make_credentials(s, random.Random(rng.random()), cfg.key_size)
         creds = good
+        server_key = b"server key" if cfg.credentials else None
+        if kind == "incompatible":
+            good, session_key = ps.make_credentials(s, random.Random(rng.random()), cfg.key_size)
+            if arg == "creds-vs-keyless":
+                creds, server_key = good, None
+                good = None                     # the compatible client of the reconnect has no credentials either
+            else:
+                creds, server_key = None, b"server key"
         if kind == "refused":
             if arg == "wrong-key":
                 creds, session_key = ps.make_credentials(s, random.Random(rng.random()), cfg.key_size, server_key=b"another server's key")
@@ -326,12 +337,16 @@ def run_special(cfg, seed, scenario):
                 creds, session_key = ps.make_credentials(s, random.Random(rng.random()), cfg.key_size)
                 creds.ticket.internal = bytes(rng.randrange(256) for _ in range(len(creds.ticket.internal)))
         out.creds, out.session_key, out.epoch = creds, session_key, sim.epoch
+        if kind == "incompatible":
+            import copy
+            out.cfg_s = copy.copy(cfg); out.cfg_s.credentials = server_key is not None     # what the L1 trace binds the server with
+            out.server_key = server_key or b"server key"
         out.rnd, out.accepted, out.send_errors, out.extra_handlers = {}, [], [], []
         out.got = {("c", 0): [], ("s", 0): []}
         out.gotu = {"c": [], "s": []}
         out.connect_error = None
         out.checkpoints = []
-        out.handler_started = (kind == "refused")     # after a refusal the first handler that starts belongs to the reconnect: plain echo
+        out.handler_started = (kind in ("refused", "incompatible"))     # after a refusal the first handler that starts belongs to the reconnect: plain echo
         out.errors = []
         log = sim.net.log
         stream_ref = {}
@@ -434,7 +449,7 @@ def run_special(cfg, seed, scenario):
 
         async def main():
             async with prudp.serve_transport(s, SERVER[0], SERVER[1]) as transport:
-                async with transport.serve(handler, 1, 10, b"server key" if cfg.credentials else None):
+                async with transport.serve(handler, 1, 10, server_key):
                     stream_ref["stream"] = transport.ports.get(1, 10)
                     ci = op_start("connect")
                     log.append(("app", sim.now(), "c", "connect", 0, b""))
